@@ -153,7 +153,7 @@ func runC16(ctx *core.Ctx) {
 	ctx.Exhaustive(true)
 	pols := c16Policies()
 	maxW := ctx.N(64, 400)
-	nPairs := ctx.N(6000, 100000)
+	nPairs := ctx.N(4000, 100000)
 	ctx.Run("pairs", nPairs, func(cs *core.Case) {
 		var env *Env
 		if cs.Index%4 == 3 {
@@ -281,7 +281,7 @@ func runC16(ctx *core.Ctx) {
 	})
 	// reader faults around the tokenizer's 4096-byte buffer boundaries (long inputs; only offsets near
 	// multiples of 4096 and the last bytes are faulted, writer faults are left to the short inputs)
-	ctx.Run("reader-faults-at-buffer-boundaries", ctx.N(120, 1200), func(cs *core.Case) {
+	ctx.Run("reader-faults-at-buffer-boundaries", ctx.N(64, 1200), func(cs *core.Case) {
 		env := NewEnv(pols[cs.Index%len(pols)])
 		var b strings.Builder
 		for b.Len() < 4200+cs.R.Intn(9000) {
